@@ -1,5 +1,6 @@
 import JediModel.Gen.C14
 import JediModel.Lemmas.Helper
+import JediModel.Lemmas.HelperStates
 /-! # C14 — a crash of the helper process is contained and recovered from
 
 Property theorems only.  The channel (which fault hits which request) is the universally
@@ -15,7 +16,8 @@ def srcCfg : Cfg :=
     envCatch := JediModel.Gen.C14.envCatch
     closeStreams := JediModel.Gen.C14.cleanupCloseStreams.filterMap Stream.ofName?
     closePerStream := JediModel.Gen.C14.cleanupClosePerStream
-    closeCatch := JediModel.Gen.C14.cleanupCloseCatch }
+    closeCatch := JediModel.Gen.C14.cleanupCloseCatch
+    usedSetBeforeRun := JediModel.Gen.C14.usedSetBeforeRun }
 
 /-- the close loop of `_cleanup_process` as read from the source has the try/except INSIDE the loop,
 lists all three pipe objects and its clause names a base of `BrokenPipeError`.  (This is the
@@ -42,7 +44,7 @@ theorem src_plan_contained (plan : Plan) (h : TruncCaught srcCfg plan) : PlanCon
   | afterSend => decide
   | raisesFatal => decide
   | none => rfl
-  | raises => rfl
+  | raises cls => rfl
 
 /-- FULL (false for the unchanged source, see `truncated_reply_two_failures`): the statement below
 without `TruncCaught`, i.e. for every plan.
@@ -96,7 +98,7 @@ theorem crash_one_failure_if_unpickling_caught (cfg : Cfg)
   | afterSend => exact h2
   | raisesFatal => exact h2
   | none => rfl
-  | raises => rfl
+  | raises cls => rfl
 
 /-- the clauses of the unchanged source, as literals (so that this witness keeps building after the
 source is repaired) -/
@@ -230,6 +232,80 @@ theorem src_trace_no_leak :
     ((exec srcCfg (planOf [(0, 2, .beforeSend)]) {}
       [.newState 1, .sysPath, .call 1, .drop 1, .newState 2, .call 2]).1.procs.map
         fun p => (p.crashed, p.reaped, p.fds.length)) = [(false, false, 3), (true, true, 0)] := by
+  decide
+
+/-! ### "helper-side state of discarded Scripts is released" -/
+
+/-- `self._used = True` stands before `run(...)` in the source.  (The statement that stops building
+when the mark is moved behind the call: then a request that comes back as an exception leaves
+`_used` unset although the helper has created the state.) -/
+theorem src_used_set_before_run : srcCfg.usedSetBeforeRun = true := by decide
+
+/-- **Every state the helper holds is queued for deletion or belongs to a live Script** that is
+bound to this helper and marked `_used` - after every trace of operations, for every plan, i.e.
+whatever the outcomes of the requests were (served, raised inside the surviving helper, helper
+died at any phase). -/
+theorem states_owned_or_queued (plan : Plan) (ops : List Op) :
+    ∀ k p, (exec srcCfg plan {} ops).1.getProc k = some p →
+      ∀ x ∈ p.child, x ∈ p.queue ∨ Owned (exec srcCfg plan {} ops).1.iss k x := by
+  intro k p hp x hx
+  have hk := exec_allKept srcCfg src_used_set_before_run plan ops {}
+    (by intro y hy; cases hy) (by intro k y hy; cases hy) k p hp
+  have := hk.own x hx
+  rwa [getProc_idx hp] at this
+
+/-- **Discarded states are released**: take any history (any plan, any trace - in particular
+Scripts whose every request made the helper raise, dropped while other Scripts were alive), and let
+one further request of a Script `t` be served by its helper without an exception.  Then every
+state this helper holds belongs to a live, used Script bound to it: nothing is left of a dropped
+Script. -/
+theorem discarded_states_released (plan : Plan) (ops : List Op) (t : Nat) (i : ISS)
+    (hi : (exec srcCfg plan {} ops).1.iss.find? (fun j => j.s = t) = some i)
+    (hok : (step srcCfg plan (exec srcCfg plan {} ops).1 (.call t)).2 = .ok) :
+    ∀ p, (step srcCfg plan (exec srcCfg plan {} ops).1 (.call t)).1.getProc i.proc = some p →
+      ∀ x ∈ p.child, Owned (step srcCfg plan (exec srcCfg plan {} ops).1 (.call t)).1.iss i.proc x := by
+  intro p hp x hx
+  have hf := exec_allFin srcCfg plan ops {} (by intro y hy; cases hy)
+  have hk := exec_allKept srcCfg src_used_set_before_run plan ops {}
+    (by intro y hy; cases hy) (by intro k y hy; cases hy)
+  have hk' := step_allKept srcCfg src_used_set_before_run plan _ (.call t) hf hk i.proc p hp
+  have hq : p.queue = [] := by
+    simp only [step, hi, src_used_set_before_run, if_true] at hok hp
+    exact callRun_ok_flushed srcCfg plan _ i.proc t hok p hp
+  rcases hk'.own x hx with h | h
+  · rw [hq] at h; cases h
+  · rwa [getProc_idx hp] at h
+
+/-- the wrapper with `self._used = True` moved behind `run(...)` (literal, independent of the source) -/
+def usedLateCfg : Cfg :=
+  { dumpCatch := ["BrokenPipeError"], loadCatch := ["EOFError", "pickle.UnpicklingError"],
+    envCatch := ["Exception"], usedSetBeforeRun := false }
+
+/-- Counter-witness for the moved mark: Scripts 1 and 2 are alive, the only request of Script 1
+makes the helper raise `ValueError` (the helper survives and has created state 1), Script 1 is
+dropped, Script 2 is served: the helper still holds state 1, nothing is queued, Script 1 is gone. -/
+theorem used_after_run_leaks_state :
+    let e := (exec usedLateCfg (planOf [(0, 2, .raises "ValueError")]) {}
+      [.newState 1, .sysPath, .newState 2, .call 1, .drop 1, .call 2]).1
+    (e.procs.map fun p => (p.child, p.queue)) = [([2, 1], [])] ∧ e.iss.map (·.s) = [2] := by
+  decide
+
+/-- the same history with the wrapper of the source: state 1 is deleted before Script 2 is served -/
+theorem src_releases_state_after_raise :
+    let e := (exec srcCfg (planOf [(0, 2, .raises "ValueError")]) {}
+      [.newState 1, .sysPath, .newState 2, .call 1, .drop 1, .call 2]).1
+    (e.procs.map fun p => (p.child, p.queue)) = [([2], [])] ∧ e.iss.map (·.s) = [2] := by
+  decide
+
+/-- The `id()`-reuse consequence: after the leak a new Script is allocated at the address of the
+dropped one.  With the moved mark its first request finds the STALE helper-side state (the helper
+creates one state for two Scripts); with the source's wrapper the old state is deleted first and
+a fresh one is created. -/
+theorem used_after_run_reuses_stale_state :
+    ((exec usedLateCfg (planOf [(0, 2, .raises "ValueError")]) {}
+      [.newState 1, .sysPath, .call 1, .drop 1, .newState 1, .call 1]).1.procs.map (·.created)) = [1]
+    ∧ ((exec srcCfg (planOf [(0, 2, .raises "ValueError")]) {}
+      [.newState 1, .sysPath, .call 1, .drop 1, .newState 1, .call 1]).1.procs.map (·.created)) = [2] := by
   decide
 
 end JediModel.Props.C14
